@@ -4,10 +4,11 @@ assume / external_body / assume_specification items) from the CURRENT tree.  Run
 import glob, json, os, sys
 sys.path.insert(0, os.path.dirname(os.path.abspath(__file__)))
 from verusrun import run_unit, cheat_census, VERIF
+REPO = os.environ.get('VERIF_REPO', '/repo')
 for up in sorted(glob.glob(os.path.join(VERIF, 'units', '*', 'unit.vxt'))):
     u = os.path.basename(os.path.dirname(up))
-    r = run_unit(u, '/repo')
+    r = run_unit(u, REPO)
     bad = [o.name for o in r.obls if o.ok is not True]
     print(u, r.status, len(r.obls), 'obligations', 'NOT DISCHARGED: %s' % bad if bad else '')
     json.dump({'obligations': sorted(o.name for o in r.obls)}, open(os.path.join(VERIF, 'units', u, 'baseline.json'), 'w'), indent=0)
-    json.dump(cheat_census(u, '/repo'), open(os.path.join(VERIF, 'units', u, 'trusted.json'), 'w'), indent=0)
+    json.dump(cheat_census(u, REPO), open(os.path.join(VERIF, 'units', u, 'trusted.json'), 'w'), indent=0)
